@@ -9,6 +9,7 @@ CONSTANTS
   MaxOps = 1
   HasUpper = TRUE
   Known = {}
+  AsFound = {}
   UpperTypes = {"none", "file", "dir", "wh"}
   LowerTypes = {"none", "file", "dir", "odir"}
 INVARIANTS LoadAgrees LiveIsView StatusAgrees RestartSame LowersFrozen
